@@ -193,6 +193,13 @@ def crash_to_return(ctx, tp):
         if e.get('race'):
             outl.append(l)       # race reports are handled by the C14 check itself
             continue
+        if 'real-time watchdog' in (e.get('msg') or ''):
+            # not a crash of the code: the scenario froze the virtual clock (or is extremely slow); it cannot be judged - inconclusive
+            # for every property unless another scenario shows a violation
+            ctx.extra.setdefault('hangs', []).append(e['scen'])
+            ctx.extra['inconclusive'] = 'scenario %s made no progress in real time (virtual clock frozen?): inconclusive' % e['scen']
+            outl = [x for x in outl if json.loads(x).get('scen') != e['scen']]
+            continue
         ctx.extra.setdefault('crashes', []).append({'scenario': e['scen'], 'panic': e['msg']})
         outl.append(json.dumps(dict(event='Params', scen=e['scen'], n=1, t=0, variant='crash', entry='crash')))
         outl.append(json.dumps(dict(event='Return', scen=e['scen'], n=2, t=0, ok=False, panic=e['msg'] or 'process died', has_result=False)))
